@@ -2,4 +2,6 @@
 EXTENDS PacketReader
 \* streams of 1..3 packets with bodies 0..3 (0 = header-only packet)
 MCStreams == {<<0>>, <<1>>, <<2, 1>>, <<3, 0, 2>>, <<1, 1, 1>>}
+\* with a header that announces a length below 8 (-1: 7, -8: 0), alone, in front of and behind other packets
+MCBadStreams == MCStreams \cup {<<-1>>, <<-8, 2>>, <<1, -3, 2, 1>>, <<-2, 3, 3>>}
 =============================================================================
